@@ -1,6 +1,7 @@
 import Parmcb.Model.FloatCert
 import Parmcb.Model.FloatDijkstra
 import Parmcb.Model.FloatLex
+import Parmcb.Model.FloatSigned
 import Parmcb.Driver.Graph
 /-! correspondence / certificate handlers for runs on inexact (double) weights (C09).  The python side converts every
 double exactly to an integer (common power-of-two scale per case). -/
@@ -145,7 +146,27 @@ def handleExactQ (c : Case) : String := Id.run do
           if w != mu then inexact := inexact + 1
           total := total + w; opt := opt + mu
         k := k + 1
-      return s!"ok {c.id} {g.n} {g.m} {dim} {total} {opt} {inexact}"
+      -- literal replay IN DOUBLE ARITHMETIC of the sequential mcb_sva_signed (Model/FloatSigned.lean): the std::set order of every
+      -- hidden-edge phase read off the first reported search of that phase; the model must emit EXACTLY the C++'s cycles and,
+      -- when the returned value is passed along (`retx`, exact), exactly the same double
+      let mut lit := 0
+      let evs := parseSearchEvs rest
+      if var == "signed" && (!evs.isEmpty || dim == 0) then
+        let sigma := fun (k : Nat) (S : List Nat) =>
+          match evs.find? (fun e => e.phase == k && e.hiddenBranch) with
+          | some e => e.hidden
+          | none => S
+        let r := mcbSignedCoreF dim (unitSupports dim) (fun k S => signedPhaseSearchHF gI rev (sigma k S) S)
+        let mut kk := 0
+        for (a, b) in r.cycles.zip cycI do
+          if a != b then return s!"diff {c.id} literal-signed-loop-in-double-arithmetic phase {kk} model=[{showNats a}] impl=[{showNats b}]"
+          kk := kk + 1
+        if r.cycles.length != cycI.length then return s!"diff {c.id} literal-signed-loop-in-double-arithmetic phases model={r.cycles.length} impl={cycI.length}"
+        match findLine "retx" rest with
+        | some [x] => if x.toInt? != some r.weight then return s!"diff {c.id} literal-signed-loop-in-double-arithmetic returned value model={r.weight} impl={x}"
+        | _ => pure ()
+        lit := 1
+      return s!"ok {c.id} {g.n} {g.m} {dim} {total} {opt} {inexact} {lit}"
     | _, _, _, _ => return s!"diff {c.id} parse-exactq-lines"
 
 end Parmcb.Driver
